@@ -49,7 +49,9 @@ ASSUMPTIONS = ['supported size family = pv/families.py',
 REQUIRED_COUNTERS = ['optimality_syndromes_checked', 'coset_tables_built',
                      'low_weight_errors_decoded', 'uf_errors_decoded',
                      'sweepmatch_single_qubit_errors',
-                     'deformed_weight_configs', 'uf_weight3_compact_errors']
+                     'deformed_weight_configs', 'uf_weight3_compact_errors',
+                     'matching_setups_one_sector_or_explicit_weights',
+                     'syndromes_given_in_another_dtype']
 SHARD_TIMEOUT = {'quick': 900, 'thorough': 5400}
 EXHAUSTIVE = True
 EXHAUSTIVE_SCOPE = ('per (decoder, lattice) block listed in '
@@ -225,8 +227,21 @@ def run_opt(task, out):
         mech = f'MatchingDecoder/{cls}' + ('/deformed-noise' if ndn else '')
         if ndn:
             out.count('deformed_weight_configs')
+        # the decoder in each way it can be set up: both sectors, one sector
+        # only (error_type), or with the weights handed over explicitly
+        wrng = np.random.default_rng([int(p * 1000), len(nm), n])
+        ewx = wrng.uniform(0.2, 3.0, size=n)
+        ewz = wrng.uniform(0.2, 3.0, size=n)
         try:
-            dec = MatchingDecoder(code, em, p)
+            decs = {None: MatchingDecoder(code, em, p),
+                    'X': MatchingDecoder(code, em, p, error_type='X'),
+                    'Z': MatchingDecoder(code, em, p, error_type='Z'),
+                    'explicit': MatchingDecoder(code, em, p,
+                                                weights=(ewx, ewz)),
+                    'explicit-X': MatchingDecoder(code, em, p, error_type='X',
+                                                  weights=(ewx, ewz)),
+                    'explicit-Z': MatchingDecoder(code, em, p, error_type='Z',
+                                                  weights=(ewx, ewz))}
         except Exception as e:
             where = panqec_frame(e)
             if where is None:
@@ -234,9 +249,25 @@ def run_opt(task, out):
             out.violation(f'{mech}/construct-raises-{type(e).__name__}',
                           f'{e} at {where}', desc)
             continue
-        for sector, Hrows, w, rows, lo in (('X', Hz, wx, z_rows, 0),
-                                           ('Z', Hx, wz, x_rows, n)):
-            table = coset_minimum(Hrows, w, n)
+        runs = []
+        for sector, Hrows, w, ew, rows, lo in (('X', Hz, wx, ewx, z_rows, 0),
+                                               ('Z', Hx, wz, ewz, x_rows, n)):
+            runs.append((sector, Hrows, w, rows, lo, None))
+            runs.append((sector, Hrows, w, rows, lo, sector))
+            if p == rates[0]:
+                runs.append((sector, Hrows, ew, rows, lo, 'explicit'))
+                runs.append((sector, Hrows, ew, rows, lo,
+                             'explicit-' + sector))
+        tables = {}
+        for sec, Hrows, w, rows, lo, setup in runs:
+            dec = decs[setup]
+            sector = sec if setup is None else f'{sec}/setup-{setup}'
+            if setup is not None:
+                out.count('matching_setups_one_sector_or_explicit_weights')
+            tk = (sec, setup is not None and setup.startswith('explicit'))
+            if tk not in tables:
+                tables[tk] = coset_minimum(Hrows, w, n)
+            table = tables[tk]
             out.count('coset_tables_built')
             slack = 1e-6 * float(np.sum(np.abs(w)))
             synds = sorted(table)
@@ -255,8 +286,8 @@ def run_opt(task, out):
                     got_syn |= (gf2.popcount(cpat & mask) & 1) << b
                 out.count('optimality_syndromes_checked')
                 checked += 1
-                wit = dict(desc, sector=sector, sector_syndrome=s_sec,
-                           correction=part)
+                wit = dict(desc, sector=sec, sector_syndrome=s_sec,
+                           correction=part, setup=setup)
                 if got_syn != s_sec:
                     out.violation(f'{mech}/sector-{sector}/wrong-syndrome',
                                   'correction does not reproduce the sector '
@@ -274,15 +305,18 @@ def run_opt(task, out):
                         f'{table[s_sec]:.6f} (noise {nm}, p={p}, '
                         f'deformation {ndn} {ndk})', wit)
                     break
-            out.case(dict(desc, sector=sector), True, n=checked,
+            out.case(dict(desc, sector=sec, setup=setup), True, n=checked,
                      distinct=max(0, checked - 1),
-                     sample=dict(desc, sector=sector, syndromes=checked)
+                     sample=dict(desc, sector=sec, syndromes=checked)
                      if sector == 'X' and nm == 'skew' else None)
     out.extra.setdefault('complete_blocks', []).append(
         f'optimality:{cls}{size}:n={n}:{len(configs)} noise configs')
 
 
 # ---------------------------------------------------------------- oracle B
+
+SYN_DTYPES = ['uint8', 'int64', 'bool', 'int32', 'uint8']
+
 
 def errors_of_weight(n, w, full):
     """Yield packed BSF ints: all supports of size w; all 3^w letterings if
@@ -326,7 +360,10 @@ def run_corr(task, out):
     for idx, e in enumerate(errors_of_weight(n, task['w'], task['full'])):
         if idx % stride != off or (idx // stride) % nch != c:
             continue
-        s = gf2.unpack(gf2.syndrome_int(H, e, n), m)
+        s = gf2.unpack(gf2.syndrome_int(H, e, n), m).astype(
+            SYN_DTYPES[idx % len(SYN_DTYPES)])
+        if s.dtype != np.uint8:
+            out.count('syndromes_given_in_another_dtype')
         try:
             corr = np.asarray(dec.decode(s))
         except Exception as ex:
@@ -376,7 +413,10 @@ def run_single(task, out):
     for idx, e in enumerate(errors_of_weight(n, 1, True)):
         if idx % task['nchunks'] != task['chunk']:
             continue
-        s = gf2.unpack(gf2.syndrome_int(H, e, n), m)
+        s = gf2.unpack(gf2.syndrome_int(H, e, n), m).astype(
+            SYN_DTYPES[idx % len(SYN_DTYPES)])
+        if s.dtype != np.uint8:
+            out.count('syndromes_given_in_another_dtype')
         try:
             corr = np.asarray(dec.decode(s))
         except Exception as ex:
